@@ -219,35 +219,39 @@ theorem walkFollows_all (k : Reuse.Reg.CKind) : walkFollows k = true := by
   simp only [Bool.and_eq_true, List.all_eq_true] at h
   exact h.1.1 k (by cases k <;> decide)
 
-/-- **The code as it is**: after a struct type whose fields hold struct types directly or behind ONE
-container has been registered, recomposing a value of it performs no registry write (holds for the
-single-step walk and for the repeated one). -/
+/-- fields that hold struct types directly or behind ONE container: no registry write on `Recompose`,
+for the single-step walk (the code before a720b7c) and for the repeated one alike -/
 theorem C08_registry_closed (reg : List Nat) (t : Reuse.Reg.TyDecl) (ht : ∀ f ∈ t.fields, f.1.length ≤ 1) :
     Reuse.Reg.lazyWrites (Reuse.Reg.register walkFollows recomposerWalkLoops reg t) t = [] :=
   Reuse.Reg.closed_one_level walkFollows walkFollows_all _ reg t ht
 
-/-- the full statement: for EVERY struct type, containers of containers included -/
-def C08_registry_full : Prop :=
-  ∀ (reg : List Nat) (t : Reuse.Reg.TyDecl),
-    Reuse.Reg.lazyWrites (Reuse.Reg.register walkFollows recomposerWalkLoops reg t) t = []
+/-- the walk repeats its step until the type is no container (generated; fix a720b7c). On the source
+before the fix (a single `switch` step) the fact is `false` and this proof fails. -/
+theorem walk_loops : recomposerWalkLoops = true := by decide
 
-/-- the walk takes a single step (generated; known finding C08-registry-nested-containers). When the
-proposed fix (notes/proposed_fixes/C08_registry_nested_containers.md) is applied this fact flips and
-`C08_registry_full` holds by `C08_registry_closed_repaired`. -/
-theorem walk_single_step : recomposerWalkLoops = false := by decide
-
-/-- **the full statement is false for the code as it is**: a field `LL [][]T` — `T` is registered by
-the first `Recompose` calls, a write to `r.composers` other goroutines read -/
-theorem C08_registry_full_false : ¬ C08_registry_full := by
-  intro h
-  have := h [] ⟨0, [([.slice, .slice], 1)]⟩
-  rw [walk_single_step, Reuse.Reg.one_level_not_closed walkFollows walkFollows_all] at this
-  cases this
-
-/-- the repaired walk (step repeated until the type is no container): closed for every struct type -/
+/-- the repeated walk: closed for every struct type -/
 theorem C08_registry_closed_repaired (reg : List Nat) (t : Reuse.Reg.TyDecl) :
     Reuse.Reg.lazyWrites (Reuse.Reg.register walkFollows true reg t) t = [] :=
   Reuse.Reg.closed_loop walkFollows walkFollows_all reg t
+
+/-- **The full statement, for the code as it is**: after a struct type has been registered, recomposing
+a value of it performs no registry write — for EVERY struct type, containers of containers
+(`[][]T`, `map[string][]T`, `*[2]T`, `***T` …) included. -/
+theorem C08_registry_full (reg : List Nat) (t : Reuse.Reg.TyDecl) :
+    Reuse.Reg.lazyWrites (Reuse.Reg.register walkFollows recomposerWalkLoops reg t) t = [] := by
+  rw [walk_loops]
+  exact C08_registry_closed_repaired reg t
+
+/-- the code before a720b7c (known finding C08-registry-nested-containers, now fixed): with a single
+step the statement is false — a field `LL [][]T`: `T` was registered by the first `Recompose`
+calls, a write to `r.composers` other goroutines read -/
+theorem C08_registry_full_before :
+    ¬ ∀ (reg : List Nat) (t : Reuse.Reg.TyDecl),
+      Reuse.Reg.lazyWrites (Reuse.Reg.register walkFollows false reg t) t = [] := by
+  intro h
+  have := h [] ⟨0, [([.slice, .slice], 1)]⟩
+  rw [Reuse.Reg.one_level_not_closed walkFollows walkFollows_all] at this
+  cases this
 
 /-- and each kind is needed: a walk that skips one leaves a type whose first `Recompose` calls
 write the registry (for `array`: the seeded change C08-m2) -/
